@@ -227,7 +227,7 @@ def run(ctx):
     ctx.ob("Q3", SPIM, "SPIMaster", "MISO captured on the rising edge, shifting left (MSB first)", ok, "" if ok else f"{[(a.v, a.gtext()) for a in mi]}")
     cs = [a for a in sp.find(domain="sync") if a.t.startswith("pads.cs_n[")]
     idx = cs[0].t[len("pads.cs_n["):-1] if len(cs) == 1 else "i"        # whatever the loop variable is called
-    ok = len(cs) == 1 and B.equivalent(B.from_expr(cs[0].value), B.from_expr(f"~(self.cs[{idx}] & (xfer_enable | (self.cs_mode == 1)))"))
+    ok = len(cs) == 1 and B.equivalent(B.from_expr(cs[0].value), B.from_expr(f"~(self.cs[{idx}] & (xfer_enable | self.cs_mode))"))   # cs_mode is 1 bit: `== 1` reads as the signal
     ctx.ob("Q3", SPIM, "SPIMaster", "cs_n[i] low iff selected and (transfer in progress or manual mode)", ok, "" if ok else f"{[a.v for a in cs]}")
     dn = sp.find(domain="comb", target="self.done")
     ok = bool(dn) and all(a.state and a.state[1] == "IDLE" for a in dn)
